@@ -213,8 +213,21 @@ fn run_history(plan: &Plan, rep: &Report) -> bool {
                                 _ => (1u64 << rng.below(32)) + rng.below(3),
                             }
                             .min(u32::MAX as u64) as u32;
-                            hist.record(v as f64);
-                            h.entry(*i).or_default().push(v);
+                            // now and then a value beyond the 32-bit range (documented to land in the top
+                            // bucket), and several occurrences at once through record_many
+                            let beyond = rng.below(16) == 0;
+                            let fv = if beyond { *rng.pick(&[4_294_967_296.0f64, 5e9, 1e12, 1.8e19]) } else { v as f64 };
+                            let v = if beyond { u32::MAX } else { v };
+                            if rng.below(4) == 0 {
+                                let n = 1 + rng.usize_below(4);
+                                hist.record_many(fv, n);
+                                for _ in 0..n {
+                                    h.entry(*i).or_default().push(v);
+                                }
+                            } else {
+                                hist.record(fv);
+                                h.entry(*i).or_default().push(v);
+                            }
                         }
                         H::G(gauge) => {
                             if *i % nup == u {
